@@ -35,6 +35,7 @@ type Case struct {
 	AllowIO   bool     `json:"allow_io"`   // false: NoExec/NoFileWrites/NoFileReads set
 	Expect    string   `json:"expect"`     // "" (anything but a crash) | "error" | "ok"
 	ExpectWhy string   `json:"expect_why"` // oracle used when Expect is set
+	Cfg       string   `json:"cfg"`        // api: name of a Config fixture applied last (hostile struct fields)
 	Files     map[string]string `json:"files"` // cli: files created in the scratch working directory (name -> hex content)
 }
 
@@ -101,6 +102,53 @@ func funcsFixture(name string) map[string]any {
 	}
 	panic("unknown funcs fixture " + name)
 }
+
+// hostile values of Config fields that only Go code can set
+func applyCfgFixture(name string, cfg *interp.Config) {
+	switch name {
+	case "":
+	case "shell-empty":
+		cfg.ShellCommand = []string{}
+		cfg.NoExec = false
+	case "shell-nonexistent":
+		cfg.ShellCommand = []string{"/nonexistent/shell", "-c"}
+		cfg.NoExec = false
+	case "csv-sep-quote":
+		cfg.InputMode, cfg.CSVInput.Separator = interp.CSVMode, '"'
+	case "csv-sep-big":
+		cfg.InputMode, cfg.CSVInput.Separator = interp.CSVMode, 0x110000
+	case "csv-sep-neg":
+		cfg.InputMode, cfg.CSVInput.Separator = interp.CSVMode, -1
+	case "csv-comment-eq-sep":
+		cfg.InputMode, cfg.CSVInput.Separator, cfg.CSVInput.Comment = interp.CSVMode, ';', ';'
+	case "csv-out-sep-nl":
+		cfg.OutputMode, cfg.CSVOutput.Separator = interp.CSVMode, '\n'
+	case "mode-7":
+		cfg.InputMode, cfg.OutputMode = interp.IOMode(7), interp.IOMode(-3)
+	case "newline-9":
+		cfg.NewlineOutput = interp.NewlineMode(9)
+	case "header-default-mode":
+		cfg.InputMode, cfg.CSVInput.Header = interp.DefaultMode, true
+	case "funcs-keyword":
+		cfg.Funcs = map[string]any{"BEGIN": func() int { return 1 }}
+	case "funcs-unparsed":
+		cfg.Funcs = map[string]any{"zzz": func() int { return 1 }, "": func() {}}
+	case "environ-odd":
+		cfg.Environ = []string{"a"}
+	case "error-writer-nil":
+		cfg.Stdin, cfg.Error = strings.NewReader(""), nil
+	case "argv0":
+		cfg.Argv0 = "\xff\x00"
+	case "noargvars":
+		cfg.NoArgVars = true
+		cfg.Args = []string{"x=1", "/nonexistent"}
+	default:
+		panic("unknown config fixture " + name)
+	}
+}
+
+var cfgFixtures = []string{"shell-empty", "shell-nonexistent", "csv-sep-quote", "csv-sep-big", "csv-sep-neg", "csv-comment-eq-sep", "csv-out-sep-nl",
+	"mode-7", "newline-9", "header-default-mode", "funcs-keyword", "funcs-unparsed", "environ-odd", "error-writer-nil", "argv0", "noargvars"}
 
 var goawkFrame = regexp.MustCompile(`github\.com/benhoyt/goawk/([A-Za-z0-9_/]+)\.([^\s(]*(?:\([^)]*\))?[A-Za-z0-9_.]*)\(`)
 
@@ -184,6 +232,7 @@ func runAPI(c *Case) (o Outcome) {
 	im, hdr := modeOf(c.InMode)
 	cfg.InputMode, cfg.CSVInput.Header = im, hdr
 	cfg.OutputMode, _ = modeOf(c.OutMode)
+	applyCfgFixture(c.Cfg, cfg)
 	switch c.Exec {
 	case "context", "reuse":
 		p, err := interp.New(prog)
@@ -229,6 +278,9 @@ func runCLI(c *Case) (o Outcome) {
 	defer cancel()
 	// the address-space limit set on the harness at start-up (limitMemory) is inherited by the child
 	cmd := exec.CommandContext(ctx, goawkBin, args...)
+	cmd.SysProcAttr = &syscall.SysProcAttr{Setpgid: true}
+	cmd.WaitDelay = 2 * time.Second
+	cmd.Cancel = func() error { return syscall.Kill(-cmd.Process.Pid, syscall.SIGKILL) }
 	cmd.Stdin = strings.NewReader(unhx(c.InputHex))
 	cmd.Env = []string{"PATH=/usr/bin:/bin", "HOME=/", "GOTRACEBACK=all"}
 	dir, derr := os.MkdirTemp("", "c02cli")
